@@ -418,7 +418,7 @@ Section Tcp.
 
   (* one iteration of the copy loop of direction D; cs / cd: source / destination already Close()d *)
   Definition loop_iter (cs cd : bool) (total : N) (D : dirst) : tpc * dirst * N :=
-    let '(got, e, t') := if cs then ([], Some 5, d_rd D) else tread CopyBuf (d_rd D) in
+    let '(got, e, t') := if cs then ([], Some 99, d_rd D) else tread CopyBuf (d_rd D) in
     let upd out bytes err := d_with D t' out (d_cw D) (d_cwf D) bytes err in
     (* if nr > 0 { nw, writeErr := dst.Write(buf[:nr]) ... } *)
     let '(nw, werr, out', ioac) :=
@@ -437,7 +437,7 @@ Section Tcp.
     if negb (is_nil got) && negb (werr =? 0) then (PHalf, upd out' (d_bytes D) werr, ioac')
     else if negb (is_nil got) && negb (nw =? lenN got) then (PHalf, upd out' (d_bytes D) 4, ioac')
     else match e with
-         | Some k => (PHalf, upd out' total' (if k =? 0 then d_err D else if k =? 5 then 5 else 1), ioac')
+         | Some k => (PHalf, upd out' total' (if k =? 0 then d_err D else if k =? 99 then 5 else 1), ioac')
          | None => (PLoop total', upd out' (d_bytes D) (d_err D), ioac')
          end.
 
